@@ -320,7 +320,28 @@ where
 
         self.read_block()?;
 
-        self.buffer.block.data_mut().set_position(usize::from(upos));
+        if self.position == cpos {
+            // There is no block at or after `cpos`. Discard the block that was loaded before the
+            // seek so that it is neither read again nor used to report the position.
+            let block = &mut self.buffer.block;
+            block.set_position(cpos);
+            block.set_size(0);
+
+            let data = block.data_mut();
+            data.set_position(0);
+            data.resize(0);
+        }
+
+        let upos = usize::from(upos);
+
+        if upos > self.buffer.block.data().len() {
+            return Err(io::Error::new(
+                io::ErrorKind::InvalidInput,
+                "invalid virtual position: uncompressed offset is past the end of the block",
+            ));
+        }
+
+        self.buffer.block.data_mut().set_position(upos);
 
         Ok(pos)
     }
